@@ -17,7 +17,7 @@ import ast
 import copy
 
 from . import AnalysisError
-from .model import norm
+from .model import norm, walk_own
 
 
 class Unsupported(AnalysisError):
@@ -306,7 +306,7 @@ def is_strlike(v):
 
 
 class Interp:
-    MAX_DEPTH = 6
+    MAX_DEPTH = 10
     MAX_TRACES = 4000
 
     def __init__(self, ctx, summaries=None, overrides=None):
@@ -316,6 +316,7 @@ class Interp:
         self.summaries = summaries or {}
         self.overrides = overrides or {}  # ("module", "name") -> value
         self._mod_objs = {}
+        self._gen_stack = []
         self._len_source = {}
         self.ext_summaries = {}   # "urllib.parse.unquote" -> fn(interp, pos, kw, node)
         self.hole_free_of = ""    # characters the symbolic holes are assumed not to contain
@@ -326,8 +327,9 @@ class Interp:
         self.depth = 0
 
     # ------------------------------------------------------------- driver
-    def run(self, func, args, self_obj=None):
-        """All traces of func(**args) under every undecided branch."""
+    def run(self, func, args, self_obj=None, copy_args=True):
+        """All traces of func(**args) under every undecided branch.  copy_args=False hands the very argument objects to
+        the code (to observe stores through them); only meaningful when the evaluation does not fork."""
         traces = []
         work = [[]]
         while work:
@@ -338,7 +340,7 @@ class Interp:
             self.trace = Trace()
             self.depth = 0
             try:
-                v = self.call_func(func, [], copy.deepcopy(dict(args)), self_obj=self_obj, node=func.node)
+                v = self.call_func(func, [], copy.deepcopy(dict(args)) if copy_args else dict(args), self_obj=self_obj, node=func.node)
                 self.trace.result = ("return", v)
             except RaiseEx as e:
                 self.trace.result = ("raise", e.exc, e.msg)
@@ -426,14 +428,22 @@ class Interp:
         if closure:
             for k_, v_ in closure.items():
                 env.setdefault(k_, v_)
+        is_gen = any(isinstance(n_, (ast.Yield, ast.YieldFrom)) for n_ in walk_own(func.node))
+        collect = is_gen and self.depth > 0
+        if collect:
+            self._gen_stack.append([])
+        elif self.depth == 0 or not is_gen:
+            pass
         self.depth += 1
         try:
             self.exec_block(func.node.body, env)
-            return None
+            return self._gen_stack[-1] if collect else None
         except ReturnEx as r:
-            return r.value
+            return self._gen_stack[-1] if collect else r.value
         finally:
             self.depth -= 1
+            if collect:
+                self._collected = self._gen_stack.pop()
 
     # --------------------------------------------------------- statements
     def exec_block(self, stmts, env):
@@ -446,7 +456,18 @@ class Interp:
                 return
             if isinstance(st.value, (ast.Yield, ast.YieldFrom)):
                 v = self.eval(st.value.value, env) if st.value.value is not None else None
-                self.trace.events.append(("yield", v, st))
+                vals = [v]
+                if isinstance(st.value, ast.YieldFrom):
+                    if isinstance(v, (list, tuple, StreamVal, HostIter)):
+                        vals = list(v)
+                    elif v is None:
+                        vals = []
+                if self._gen_stack:
+                    # a generator called from the code under evaluation: its items are collected for the caller
+                    self._gen_stack[-1].extend(vals)
+                else:
+                    for v_ in vals:
+                        self.trace.events.append(("yield", v_, st))
                 return
             self.eval(st.value, env)
             return
@@ -730,6 +751,11 @@ class Interp:
         if isinstance(base, (Opaque, Sym)):
             if node.attr in base.attrs:
                 return base.attrs[node.attr]
+            if isinstance(base, Opaque) and base.attrs and base.name not in ("self", "cls"):
+                # a read-only property of a package class (Feature.chrom / .stop)
+                m_ = self._class_method(base.kind, node.attr)
+                if m_ is not None and any(isinstance(d, ast.Name) and d.id == "property" for d in m_.node.decorator_list):
+                    return self.call_func(m_, [], {}, self_obj=base, node=node)
             if isinstance(base, Opaque) and base.name in ("self", "cls"):
                 # a class-level constant (self._SQL): the class body assignment, along the MRO
                 func = env.get("__func__")
@@ -836,6 +862,17 @@ class Interp:
                     coll = self._len_source.get(y.name)
                     if coll is not None:
                         return AStr([Rep(coll, x, "")])
+        if isinstance(a, int) and isinstance(b, int) and not isinstance(a, bool) and not isinstance(b, bool):
+            if isinstance(op, ast.RShift) and 0 <= b < 256:
+                return a >> b
+            if isinstance(op, ast.LShift) and 0 <= b < 256:
+                return a << b
+            if isinstance(op, ast.FloorDiv) and b != 0:
+                return a // b
+            if isinstance(op, ast.BitAnd):
+                return a & b
+            if isinstance(op, ast.BitOr):
+                return a | b
         if isinstance(op, ast.Pow) and isinstance(a, int) and isinstance(b, int) and b < 100:
             return a ** b
         if isinstance(op, ast.Mod) and is_strlike(a):
@@ -1480,6 +1517,11 @@ class Interp:
                 nm = v.name if isinstance(v, Sym) else v.render()
                 return Sym("%s(%s)" % (name, nm), "int" if name == "ord" else "str", True)
             return {"ord": ord, "chr": chr, "hex": hex}[name](v)
+        if name == "range" and pos and all(isinstance(x, int) and not isinstance(x, bool) for x in pos):
+            r_ = range(*pos)
+            if len(r_) > 100000:
+                raise Unsupported("range of %d elements" % len(r_))
+            return list(r_)
         if name == "iter":
             return pos[0]
         if name == "print":
@@ -1725,6 +1767,14 @@ class Interp:
         if isinstance(base, (Opaque, Sym)) and isinstance(base.attrs.get(attr), (Callback, FuncVal, LambdaVal, Builtin, TypeVal)):
             # an attribute holding a callable (self.transform)
             return self.call(base.attrs[attr], pos, kw, node, env)
+        if isinstance(base, Opaque) and base.attrs and base.name not in ("self", "cls") and base.kind not in ("obj", "iter", "list", "dict", "set"):
+            # an object of a package class carrying its fields: run the class's own method on it
+            m_ = self._class_method(base.kind, attr)
+            if m_ is not None and not any(isinstance(d, ast.Name) and d.id in ("property", "staticmethod", "classmethod") for d in m_.node.decorator_list):
+                q_ = m_.qual
+                if q_ in self.summaries:
+                    return self.summaries[q_](self, [base] + list(pos), kw, node)
+                return self.call_func(m_, pos, kw, self_obj=base, node=node)
         if isinstance(base, (Opaque, Sym)):
             if isinstance(base, Opaque) and base.name == "self" and base.kind == "obj":
                 func = env.get("__func__")
@@ -1846,8 +1896,14 @@ class Interp:
                         raise Unsupported("unterminated format field")
                     field = p[i + 1:j]
                     spec = None
+                    conv = None
                     if "!" in field:
-                        raise Unsupported("conversion in format field %r" % field)
+                        field, conv = field.split("!", 1)
+                        if ":" in conv:
+                            conv, rest_ = conv.split(":", 1)
+                            field = field + ":" + rest_
+                        if conv not in ("s", "r"):
+                            raise Unsupported("conversion !%s in a format field" % conv)
                     if ":" in field:
                         field, spec = field.split(":", 1)
                     name, attrs = field, []
@@ -1874,6 +1930,10 @@ class Interp:
                             out.append(format(v, spec))
                         else:
                             raise Unsupported("format spec %r applied to %r" % (spec, v))
+                    elif conv == "r" and isinstance(v, str):
+                        out.append(repr(v))
+                    elif conv == "r" and isinstance(v, (Sym, AStr, Opaque)):
+                        out.append(Sym("repr(%s)" % (v.name if hasattr(v, "name") else v.render()), "str", True))
                     else:
                         out.append(self.to_str(v))
                     i = j + 1
